@@ -87,7 +87,7 @@ def run(ctx, texts, unit='block.buffer', sets=None):
         rname, kw = (sets or TOKEN_SETS)[i % len(sets or TOKEN_SETS)]
         lines = lines_of(t)
         res, types = real_block_phase(rname, kw, lines)
-        reqs.append({'op': 'block.parse', 'types': types, 'lines': lines, 'fuel': 300})
+        reqs.append({'op': 'block.parse', 'types': types, 'lines': lines, 'fuel': 1000000})
         exp.append(res)
         meta.append({'text': t, 'renderer': rname, 'kwargs': kw})
     model = driver_batch(reqs)
